@@ -118,7 +118,8 @@ def step (s : DState) : List String → DState × String
   | ["invoke", p, ch, plugin, cmd, spec, ae, args] =>
     match dec p, decOpt ch, dec plugin, decList cmd, decSpec spec, decBool ae, decList args with
     | some p, some ch, some plugin, some cmd, some spec, some ae, some args =>
-      (s, encOutcome (invoke s.db s.now { pfx := p, channel := ch } plugin cmd spec ae (fun _ st => some st) args))
+      (s, encGate (gate s.db s.now { pfx := p, channel := ch } plugin cmd) ++ "\t|\t" ++
+          encOutcome (invoke s.db s.now { pfx := p, channel := ch } plugin cmd spec ae (fun _ st => some st) args))
     | _, _, _, _, _, _, _ => (s, "bad-op")
   | ["ignored", p] =>
     match dec p with
